@@ -169,3 +169,35 @@ fn c19_constructors() {
     kani::cover!(n == 0, "empty string");
     std::mem::forget(o);
 }
+
+// @harness name=c19_owned_repr_auth_type props=C19,C01 tier=quick timeout=1500
+// @bound interned AUTH_TYPE vs. a custom string of the same letters in EVERY case pattern (2^9) and vs. interned PATH_INFO: eq / cmp / hash agree across representations
+// @functions OwnedVarName::{eq, cmp, hash, as_ref, borrow}, From<StaticVarName>
+#[kani::proof]
+#[kani::unwind(20)]
+#[kani::stub(compact_str::repr::ensure_read, ensure_read_id)]
+fn c19_owned_repr_auth_type() {
+    let si = OwnedVarName::from(AUTH_TYPE);
+    let sj = OwnedVarName::from(PATH_INFO);
+    let tb = *b"AUTH_TYPE";
+    assert!(si.as_ref().as_bytes() == tb, "interned name does not read back as its canonical spelling");
+    let mask: u16 = kani::any();
+    let mut low = tb;
+    let mut k = 0;
+    while k < 9 { if mask & (1 << k) != 0 { low[k] = low[k].to_ascii_lowercase(); } k += 1; }
+    let cu = OwnedVarName(VarNameInner::Custom(CompactString::new(unsafe { str::from_utf8_unchecked(&low) })));
+    assert!(si == cu && cu == si, "interned and custom representations of the same name compare unequal");
+    assert!(si.cmp(&cu) == std::cmp::Ordering::Equal && cu.cmp(&si) == std::cmp::Ordering::Equal);
+    let (mut h1, mut h2, mut h3) = (Rec::new(), Rec::new(), Rec::new());
+    si.hash(&mut h1); cu.hash(&mut h2);
+    let bv: &VarName = si.borrow();
+    bv.hash(&mut h3);
+    assert!(same_rec(&h1, &h2), "equal names in different representations hash differently");
+    assert!(same_rec(&h1, &h3), "Borrow<VarName> is not hash-compatible");
+    assert!(si != sj && cu != sj);
+    assert!(si.cmp(&sj) == std::cmp::Ordering::Less && cu.cmp(&sj) == std::cmp::Ordering::Less && sj.cmp(&cu) == std::cmp::Ordering::Greater,
+            "order across representations differs from the order of the spellings");
+    kani::cover!(mask & 0x1ff == 0x1ff, "all lower case");
+    kani::cover!(mask & 0x1ff == 0x010, "only the underscore position 'lowered' (no change)");
+    std::mem::forget(cu);
+}
